@@ -366,7 +366,8 @@ def prove_lemmas(theories, timeout=10):
     defs = [f for n_, f in S_.GEN_AXIOMS if n_ not in S_.GEN_LEMMAS and not n_.startswith(('fin-', 'card-'))]
     for n_, f in S_.GEN_AXIOMS:
         if n_ in S_.GEN_LEMMAS:
-            o = Obligation('theory.sets', n_, 'lemma', list(defs), f); o.skip_relevance = True
+            hy = list(defs) if not n_.startswith('card-') else [f_ for m_, f_ in S_.GEN_AXIOMS if m_ not in S_.GEN_LEMMAS]      # card lemmas follow from the card / fin axioms
+            o = Obligation('theory.sets', n_, 'lemma', hy, f); o.skip_relevance = True
             jobs.append((n_, o, None))
     os_ = [o for (_n, o, _x) in jobs if o is not None]
     from . import sets as S
